@@ -22,8 +22,8 @@ RUNS = {
     ("C12", "quick"): [("MC_Router_c02quick.cfg", None, None), ("MC_Router_c02sim.cfg", 20, 11)],
     ("C12", "thorough"): [("MC_Router_c02thorough.cfg", None, None), ("MC_Router_c02sim.cfg", 200, 11), ("MC_Router_c01three.cfg", None, None)],
     ("C06", "quick"): [("MC_Router_c01quick.cfg", None, None)],
-    ("C11", "quick"): [("MC_Router_c02quick.cfg", None, None)],
-    ("C11", "thorough"): [("MC_Router_c02thorough.cfg", None, None), ("MC_Router_c02sim.cfg", 200, 11)],
+    ("C11", "quick"): [("MC_Router_c02quick.cfg", None, None), ("MC_Router_c01orders.cfg", None, None)],
+    ("C11", "thorough"): [("MC_Router_c02thorough.cfg", None, None), ("MC_Router_c01orders.cfg", None, None), ("MC_Router_c02sim.cfg", 200, 11)],
     ("C06", "thorough"): [("MC_Router_c01thorough.cfg", None, None)],
 }
 REPLAY = {p: {"driver": "router", "trace_module": "Trace_Router", "trace_cfg": "Trace_Router.cfg"} for p in ("C01", "C02", "C17")}
